@@ -242,6 +242,8 @@ func runC03(c *Ctx) {
 				continue
 			}
 			T := recvNamedOfFn(fn)
+			// the stop flag: the bool field the queue's Shutdown sets (whatever it is called)
+			stoppedF := stopFlagField(p, qpk, T)
 			if T == q.mq.Origin() {
 				n := 0
 				for _, r := range returnsOf(fn) {
@@ -255,7 +257,7 @@ func runC03(c *Ctx) {
 					gotStopped, gotEmpty := false, false
 					for _, g := range guardsOf(r.Block()) {
 						v, br := boolOf(g)
-						if _, path := fieldChain(v); len(path) > 0 && path[len(path)-1] == "stopped" && br {
+						if _, path := fieldChain(v); len(path) > 0 && path[len(path)-1] == stoppedF && br {
 							gotStopped = true
 						}
 						if call, ok := v.(*ssa.Call); ok && recvNamed(calleeOf(call)) == q.lq.Origin() && !br {
@@ -267,8 +269,11 @@ func runC03(c *Ctx) {
 							if isNilConst(x) {
 								o = y
 							}
-							if _, path := fieldChain(o); len(path) > 0 && path[len(path)-1] == "head" {
-								gotEmpty = true
+							// a pointer field of the list (its head) compared with nil
+							if u, ok := strip(o).(*ssa.UnOp); ok && u.Op == token.MUL {
+								if fa, ok := u.X.(*ssa.FieldAddr); ok && q.lq != nil && namedOf(fa.X.Type()) == q.lq.Origin() {
+									gotEmpty = true
+								}
 							}
 						}
 					}
@@ -289,7 +294,7 @@ func runC03(c *Ctx) {
 					ok := false
 					for _, g := range guardsOf(d.Block()) {
 						v, br := boolOf(g)
-						if _, path := fieldChain(v); len(path) > 0 && path[len(path)-1] == "stopped" && !br {
+						if _, path := fieldChain(v); len(path) > 0 && path[len(path)-1] == stoppedF && !br {
 							ok = true
 						}
 					}
@@ -302,6 +307,17 @@ func runC03(c *Ctx) {
 	c.Rule("R5", "WHO", "the retry sender's Shutdown closes the stop channel; no other function closes it", 1)
 	{
 		n := 0
+		// the stop channel: the channel field of the retry sender (the struct with the back-off configuration)
+		stopCh := "stopCh"
+		if _, retryT, _ := findRetrySend(p); retryT != nil {
+			if st, ok := retryT.Underlying().(*types.Struct); ok {
+				for i := 0; i < st.NumFields(); i++ {
+					if _, isCh := st.Field(i).Type().Underlying().(*types.Chan); isCh {
+						stopCh = st.Field(i).Name()
+					}
+				}
+			}
+		}
 		for _, fn := range p.AllSrcFuncs(ipk) {
 			allInstrs(fn, func(in ssa.Instruction) {
 				ci, ok := in.(ssa.CallInstruction)
@@ -309,7 +325,7 @@ func runC03(c *Ctx) {
 					return
 				}
 				_, path := fieldChain(ci.Common().Args[0])
-				if len(path) == 0 || path[len(path)-1] != "stopCh" {
+				if len(path) == 0 || path[len(path)-1] != stopCh {
 					return
 				}
 				n++
